@@ -50,6 +50,7 @@ func newRangeEnv(proto, fam string, useStub bool) *rangeEnv {
 		e.g.Net = e.stub
 	} else {
 		e.nw = simnet.New()
+		e.nw.ModelReusePort = true
 		e.nw.LogOff = true
 		e.g.Net = e.nw.Transport()
 	}
